@@ -1,17 +1,17 @@
-(* NEEDS: Gen/ErrnoGen.vo Err/OrderModel.vo Err/ContractModel.vo Err/ContractProofs.vo Err/RefutedModel.vo Err/NewModel.vo *)
+(* NEEDS: Gen/ErrnoGen.vo Err/OrderModel.vo Err/ContractModel.vo Err/ContractProofs.vo Err/RefutedModel.vo Err/NewModel.vo Err/HistModel.vo *)
 (* Extraction of the C11 models: decision functions (argument-checking prologues), the check / write
    machine and the steps built on the generated orders.  Only ExtrOcamlBasic's directives are in
    effect; Z, positive, nat stay the extracted inductive types. *)
 Require Extraction.
 Require Import ExtrOcamlBasic.
 Require Import List ZArith QArith.
-Require Import LV.Err.ErrBase LV.Gen.ErrnoGen LV.Err.OrderModel LV.Err.ContractModel LV.Err.ContractProofs LV.Err.RefutedModel LV.Err.NewModel.
+Require Import LV.Err.ErrBase LV.Gen.ErrnoGen LV.Err.OrderModel LV.Err.ContractModel LV.Err.ContractProofs LV.Err.RefutedModel LV.Err.NewModel LV.Err.HistModel.
 Extraction Language OCaml.
 Set Extraction KeepSingleton.
 Extraction "models_err.ml"
   check_data data_step doc_fval check_query query_step add_calibration find_slot
   actual_errno callbacks gen_errno_of_code gen_errno_of doc_errno add_standard_current
   check_new_alloc check_new new_step check_param param_step check_convert gen_f_extrapolation
-  vset vset_subtree
-  gen_get_z0_strict gen_set_z0_strict gen_get_fz0_strict gen_set_fz0_strict gen_add_common_prevalidates
+  vset vset_subtree flat_cell hrun kept data_run
+  gen_get_z0_strict gen_set_z0_strict gen_get_fz0_strict gen_set_fz0_strict gen_add_common_prevalidates gen_check_parameter_recurses gen_get_parameter_recurses
   gen_orders_digest.
